@@ -118,6 +118,16 @@ def modelStep (s : St) (ws : List String) : St × String :=
   | ["meta", v, r] => match v.toNat?, parseReq r with
     | some v, some req => (s, "meta " ++ showMeta (wire v (handleMetadata s.store req s.host s.port)))
     | _, _ => (s, "bad-op")
+  | "par" :: items =>
+    let outs := items.map fun it =>
+      match it.splitOn ":" with
+      | [v, r] => match v.toNat?, parseReq r with
+        | some v, some req =>
+          -- the batch is served by `serveConcurrent`; entry i is `handleMetadata` of request i
+          "meta " ++ showMeta (wire v (handleMetadata s.store req s.host s.port))
+        | _, _ => "bad-op"
+      | _ => "bad-op"
+    (s, "par " ++ joinWith " || " outs)
   | ["coord", _] => (s, "coord " ++ showCoord (findCoordinator s.host s.port))
   | ["nrmeta", v, r] => match v.toNat?, parseReq r with
     | some v, some req => (s, "meta " ++ showMeta (wire v (notReadyMetadata req)))
@@ -128,17 +138,35 @@ def modelStep (s : St) (ws : List String) : St × String :=
 def verdict (bad : List String) : String :=
   if bad.isEmpty then "ok" else "violation " ++ joinWith "," bad
 
+/-- split a token list at the "||" separators -/
+def splitBars (ws : List String) : List (List String) :=
+  ws.foldr (fun w acc => if w = "||" then [] :: acc else match acc with
+    | h :: t => (w :: h) :: t
+    | [] => [[w]]) [[]]
+
+/-- `onlyProxy` + `topology_kept` of ONE reply relative to ITS OWN request. -/
+def metaBad (s : St) (v : Nat) (req : Option (List ReqTopic)) (impl : Meta) : List String :=
+  let impl' := { impl with controller := if v ≥ 1 then impl.controller else 0 }
+  (if onlyProxy impl' s.host s.port then [] else ["names-non-proxy-broker"]) ++
+  (if impl.topics.map topicShape == (expectedShapes s.store req).map (wireShape v) then []
+   else ["topology-changed"])
+
 def monitorStep (s : St) (ws : List String) : St × String :=
   match ws with
   | ">" :: out =>
     let res : String := match s.pending, out with
       | ["meta", v, r], "meta" :: rest => match v.toNat?, parseReq r, parseMeta rest with
-        | some v, some req, some impl =>
-          let impl' := { impl with controller := if v ≥ 1 then impl.controller else 0 }
-          verdict ((if onlyProxy impl' s.host s.port then [] else ["names-non-proxy-broker"]) ++
-            (if impl.topics.map topicShape == (expectedShapes s.store req).map (wireShape v) then []
-             else ["topology-changed"]))
+        | some v, some req, some impl => verdict (metaBad s v req impl)
         | _, _, _ => "violation unparsable-reply"
+      | "par" :: items, "par" :: rest =>
+        let replies := splitBars rest
+        if replies.length != items.length then "violation unparsable-reply" else
+        verdict ((items.zip replies).foldl (fun bad (it, rep) =>
+          bad ++ (match it.splitOn ":", rep with
+            | [v, r], "meta" :: body => match v.toNat?, parseReq r, parseMeta body with
+              | some v, some req, some impl => (metaBad s v req impl).map (· ++ "-under-concurrency")
+              | _, _, _ => ["unparsable-reply"]
+            | _, _ => ["unparsable-reply"])) []).eraseDups
       | ["coord", _], "coord" :: rest => match parseCoord rest with
         | some c => verdict (if c == findCoordinator s.host s.port then [] else ["coordinator-not-proxy"])
         | none => "violation unparsable-reply"
